@@ -93,9 +93,9 @@ func (rc *RunCtx) Scenario(format string, args ...any) {
 	rc.out.Scenario = append(rc.out.Scenario, fmt.Sprintf(format, args...))
 }
 
-func (rc *RunCtx) Probe(name string)  { rc.out.Probes[name]++ }
-func (rc *RunCtx) Fault(kind string)  { rc.out.Faults[kind]++ }
-func (rc *RunCtx) Count(name string)  { rc.out.Extra[name]++ }
+func (rc *RunCtx) Probe(name string) { rc.out.Probes[name]++ }
+func (rc *RunCtx) Fault(kind string) { rc.out.Faults[kind]++ }
+func (rc *RunCtx) Count(name string) { rc.out.Extra[name]++ }
 func (rc *RunCtx) Buggify(name string) {
 	rc.out.Buggify = append(rc.out.Buggify, name)
 }
@@ -138,14 +138,14 @@ func (rc *RunCtx) Finish() *Outcome {
 
 // Check describes one property check.
 type Check struct {
-	ID        string
-	Level     string // exploration | fault_enumeration
-	Rule      string // how cases are generated and what makes one distinct / non-trivial
-	Real      []string
-	Stub      []string
-	Assume    []string
-	NoBubble  bool // run outside a synctest bubble
-	HangIsViolation bool
+	ID               string
+	Level            string // exploration | fault_enumeration
+	Rule             string // how cases are generated and what makes one distinct / non-trivial
+	Real             []string
+	Stub             []string
+	Assume           []string
+	NoBubble         bool // run outside a synctest bubble
+	HangIsViolation  bool
 	CrashIsViolation bool
 	NonDeterministic bool // arm-B style checks: excluded from the determinism self-test
 	// Run executes one simulated run. It is called inside a synctest bubble unless NoBubble.
